@@ -249,6 +249,10 @@ impl<'tcx> Cx<'tcx> {
                 o.put("k", J::s("bytes"));
                 if let Some(bytes) = self.read_alloc(alloc_id, offset.bytes(), ty) {
                     o.put("hex", J::s(bytes));
+                } else if let Some(items) = self.read_str_array(alloc_id, offset.bytes(), ty) {
+                    // `[&str; N]`: the strings themselves
+                    o.put("k", J::s("strs"));
+                    o.put("items", J::Arr(items.into_iter().map(J::s).collect()));
                 } else if let Some((pty, hex)) = self.read_slice_ref(alloc_id, offset.bytes(), ty) {
                     // `&'static [T]` / `&'static [T; N]` constant: follow the pointer to the (pointer-free) elements
                     o.put("k", J::s("ptr"));
@@ -258,6 +262,52 @@ impl<'tcx> Cx<'tcx> {
             }
         }
         o
+    }
+
+    /// a constant `[&str; N]`: its strings
+    fn read_str_array(&self, alloc_id: mir::interpret::AllocId, offset: u64, ty: Ty<'tcx>) -> Option<Vec<String>> {
+        let tcx = self.tcx;
+        let (elem, n) = match ty.kind() {
+            ty::Array(e, n) => (*e, n.try_to_target_usize(tcx)?),
+            _ => return None,
+        };
+        match elem.kind() {
+            ty::Ref(_, inner, _) if inner.is_str() => {}
+            _ => return None,
+        }
+        if n > 64 {
+            return None;
+        }
+        let alloc = match tcx.global_alloc(alloc_id) {
+            mir::interpret::GlobalAlloc::Memory(m) => m,
+            _ => return None,
+        };
+        let a = alloc.inner();
+        let mut out = Vec::new();
+        for i in 0..n as usize {
+            let off = offset as usize + i * 16;
+            if off + 16 > a.len() {
+                return None;
+            }
+            let prov = a.provenance().ptrs().iter().find(|(o, _)| o.bytes() as usize == off).map(|(_, p)| *p)?;
+            let raw = a.inspect_with_uninit_and_ptr_outside_interpreter(off..off + 16);
+            let mut w = [0u8; 8];
+            w.copy_from_slice(&raw[0..8]);
+            let poff = u64::from_le_bytes(w) as usize;
+            w.copy_from_slice(&raw[8..16]);
+            let len = u64::from_le_bytes(w) as usize;
+            let target = match tcx.global_alloc(prov.alloc_id()) {
+                mir::interpret::GlobalAlloc::Memory(m) => m,
+                _ => return None,
+            };
+            let ti = target.inner();
+            if poff + len > ti.len() {
+                return None;
+            }
+            let bytes = ti.inspect_with_uninit_and_ptr_outside_interpreter(poff..poff + len);
+            out.push(String::from_utf8_lossy(bytes).to_string());
+        }
+        Some(out)
     }
 
     /// a constant of type `&[T]` stored as (pointer, length): the pointee as `[T; len]` bytes
@@ -1021,5 +1071,21 @@ pub fn collect<'tcx>(tcx: TyCtxt<'tcx>) -> J {
         }
     }
     root.put("structs", J::Arr(adts));
+    // field-less local enums with their discriminant values (a cast `e as usize` is a case split over them)
+    let mut enums = Vec::new();
+    for ldid in tcx.hir_crate_items(()).definitions() {
+        let did = ldid.to_def_id();
+        if matches!(tcx.def_kind(did), DefKind::Enum) {
+            let adt = tcx.adt_def(did);
+            if adt.variants().iter().all(|v| v.fields.is_empty()) && adt.variants().len() <= 16 {
+                let mut vs = Vec::new();
+                for (idx, d) in adt.discriminants(tcx) {
+                    vs.push(J::obj().set("name", J::s(adt.variant(idx).name.to_string())).set("discr", J::s(format!("{}", d.val))));
+                }
+                enums.push(J::obj().set("path", J::s(defpath(tcx, did))).set("variants", J::Arr(vs)));
+            }
+        }
+    }
+    root.put("enums", J::Arr(enums));
     root
 }
